@@ -410,6 +410,8 @@ Definition wmon_wrap (m : wmon) (rq : wrequest) (q : wreq) (o : wobs_step) : opt
             if (c =? 455) && reg_eqb (wo_reg o) (wm_reg m) && negb (wo_eof o) && wmedia_ok m o
             then Some m else None
           else if c =? 455 then None       (* 455 is for illegal methods only *)
+          else if (c =? 2) && wmeth_eqb me WmSetup && transport_invalid (wq_transport q) then
+            None   (* a SETUP whose Transport header is invalid must be refused, wherever the fault is *)
           else if c =? 2 then
             match wmon_accept m me with
             | None => None
